@@ -30,6 +30,7 @@ type facts struct {
 	TokenKinds        []string           `json:"tokenKinds"`
 	Extra             *extraFacts        `json:"extra,omitempty"` // detfacts.go (C12 / C07), additive
 	Graph             *graphFacts            `json:"graph,omitempty"` // lockgraph.go (C07), additive
+	DefaultResolve    [][2]string            `json:"defaultResolve"` // defresolve.go (C01 / C20), additive
 }
 
 func must(err error) {
@@ -260,6 +261,7 @@ func main() {
 	sort.Slice(F.ChanMakes, func(i, j int) bool { return fmt.Sprint(F.ChanMakes[i]) < fmt.Sprint(F.ChanMakes[j]) })
 	sort.Slice(F.RecoverAsserts, func(i, j int) bool { return fmt.Sprint(F.RecoverAsserts[i]) < fmt.Sprint(F.RecoverAsserts[j]) })
 
+	F.DefaultResolve = defaultResolveFacts(fset, rootFiles)
 	F.LockFacts = lockFacts(fset, rootFiles, info)
 	F.Extra = collectExtra(fset, rootFiles, info, F.LockFacts)
 	F.Graph = collectGraph(fset, rootFiles, info)
@@ -325,6 +327,15 @@ func renderLean(F *facts) string {
 	strs("kinds", F.Kinds)
 	strs("specifiedRules", F.SpecifiedRules)
 	strs("tokenKinds", F.TokenKinds)
+	fmt.Fprintf(&b, "def defaultResolveConstants : List (String × String) := [\n")
+	for i, x := range F.DefaultResolve {
+		sep := ","
+		if i == len(F.DefaultResolve)-1 {
+			sep = ""
+		}
+		fmt.Fprintf(&b, "  (%s, %s)%s\n", q(x[0]), q(x[1]), sep)
+	}
+	fmt.Fprintf(&b, "]\n\n")
 	triples := func(name string, xs [][3]string) {
 		fmt.Fprintf(&b, "def %s : List (String × String × String) := [\n", name)
 		for i, x := range xs {
